@@ -940,7 +940,7 @@ pub fn run(ctx: &Ctx) -> i32 {
             rule: "cases = (date,time) field pairs, calendar timestamps, directory-entry field tuples (via hook H1 verif_serialize and the public decoder), and candidate file-name strings; enumerated cases are distinct by construction, random ones by content hash; each case is a separate comparison against an independent encoder/decoder/validator written from the FAT specification".into(),
             assumptions: vec![
                 "the independent entry encoder, timestamp decoder and 8.3 validator follow the Microsoft FAT specification".into(),
-                "Latin-1 letters may or may not be upper-cased, DEL (0x7f) may or may not be accepted, a leading 0xE5 may be stored as 0x05 (statement does not fix these)".into(),
+                "Latin-1 lower-case letters (0xE0..0xFE except 0xF7) must be stored upper-cased; DEL (0x7f) may or may not be accepted (statement does not fix it)".into(),
                 "ShortFileName bytes are read through the volume-label view (trailing ASCII whitespace padded back)".into(),
             ],
             exhaustive: Some(full),
